@@ -178,7 +178,7 @@ Section Distinct.
       inversion Hr; subst. reflexivity.
     - unfold Block.new_block_from_bytes, Block.new_block_from_reader in Hb.
       destruct (deser_block _ _ _ W bytes) as [[[h cs] r]|]; [|discriminate]. simpl in Hb.
-      destruct (Nat.leb _ _); [|discriminate]. inversion Hb; subst. reflexivity.
+      destruct (Nat.leb _ _); [|discriminate]. destruct (Nat.eqb _ _); inversion Hb; subst; reflexivity.
   Qed.
 
   (* in every reachable state the cached wrappers of different indices are different objects *)
